@@ -569,51 +569,6 @@ structure PathIdem : Prop where
   unq : ∀ (p : Str) (m : Bool), AbsPath p → unquotePath (canonPath p m) = canonPath p m
   upper : ∀ (p : Str) (m : Bool), AbsPath p → UpperEsc p → UpperEsc (canonPath p m)
 
-section
-variable {puny : Str → Str} (hpc : PunyClean puny) (sf : Bool) {S rest : Str} {p : Parsed}
-  (h : FromParse S rest p)
-include hpc h
-
-/-- the printed URL, spelled out (unquoted mode; an authority is printed) -/
-theorem printed_eq
-    (hwf : WF (canonParts puny false sf p).scheme (canonParts puny false sf p).netloc
-      (canonParts puny false sf p).path (canonParts puny false sf p).query
-      ((canonParts puny false sf p).fragment.getD []))
-    (hnl : (canonParts puny false sf p).netloc ≠ [] ∨
-      inTable usesNetloc20 (canonParts puny false sf p).scheme = true) :
-    urlunsplit (canonParts puny false sf p) =
-      lower S ++ ':' :: '/' :: '/' :: ((canonParts puny false sf p).netloc ++
-        ((canonParts puny false sf p).path ++
-          (queryPart (canonParts puny false sf p).query ++
-            fragPart ((canonParts puny false sf p).fragment.getD [])))) := by
-  have hscheme : (canonParts puny false sf p).scheme = lower S := h.split.scheme
-  have hsne : lower S ≠ [] := by
-    obtain ⟨⟨c, r, e, _⟩, _⟩ := h.shaped; rw [e]; simp [Py.lower]
-  rw [urlunsplit_eq_urlunsplit20, urlunsplit20_eq]
-  have hb : bodyOf (canonParts puny false sf p).scheme (canonParts puny false sf p).netloc
-      (canonParts puny false sf p).path =
-      '/' :: '/' :: ((canonParts puny false sf p).netloc ++ (canonParts puny false sf p).path) := by
-    apply bodyOf_true
-    · rcases hnl with h1 | h1
-      · simp [h1]
-      · by_cases h0 : (canonParts puny false sf p).netloc = []
-        · have h1' : inTable usesNetloc20 (lower S) = true := by rw [← hscheme]; exact h1
-          have hs' : (canonParts puny false sf p).scheme ≠ [] := by rw [hscheme]; exact hsne
-          simp [h0, h1, hs', hwf.path_no2 h0]
-        · simp [h0]
-    · apply hwf.path_abs
-      rcases hnl with h1 | h1
-      · exact Or.inl h1
-      · exact Or.inr ⟨by rw [hscheme]; exact hsne, h1⟩
-  rw [hb, hscheme]
-  simp [schemePart, hsne]
-
-end
-
-theorem canonParts_netloc (puny : Str → Str) (quoted sf : Bool) (p : Parsed) :
-    (canonParts puny quoted sf p).netloc =
-      unsplitNetloc (canonComps puny quoted sf p).user (canonComps puny quoted sf p).pass
-        (canonComps puny quoted sf p).host (canonComps puny quoted sf p).port := rfl
 theorem canonParts_path (puny : Str → Str) (quoted sf : Bool) (p : Parsed) :
     (canonParts puny quoted sf p).path = (canonComps puny quoted sf p).path := rfl
 theorem canonParts_query (puny : Str → Str) (quoted sf : Bool) (p : Parsed) :
@@ -651,13 +606,13 @@ theorem upperEsc_tail {q f : Str} (hq : UpperEsc q) (hf : UpperEsc f) :
     exact (upperEsc_cons_sep ⟨by decide, by decide⟩ _).2 (upperEsc_append_of_sepHead hq hfp hfs)
   · simpa using hfp
 
-theorem upperEsc_netloc {U P H : Str} {port : Option Nat} (hU : UpperEsc U) (hP : UpperEsc P)
-    (hH : '%' ∉ H) : UpperEsc (authPart U P ++ (hostPart H ++ portPart port)) := by
-  have hX : UpperEsc (hostPart H ++ portPart port) := by
+theorem upperEsc_netloc {U P H : Str} {b : Bool} {port : Option Nat} (hU : UpperEsc U) (hP : UpperEsc P)
+    (hH : '%' ∉ H) : UpperEsc (authPart U P ++ (hostPartB b H ++ portPart port)) := by
+  have hX : UpperEsc (hostPartB b H ++ portPart port) := by
     apply upperEsc_of_no_pct
     intro hm
     rcases List.mem_append.1 hm with h | h
-    · rcases mem_hostPart h with h | h | h
+    · rcases mem_hostPartB h with h | h | h
       · exact hH h
       · cases h
       · cases h
@@ -668,13 +623,13 @@ theorem upperEsc_netloc {U P H : Str} {port : Option Nat} (hU : UpperEsc U) (hP 
   have sa : Sep '@' := ⟨by decide, by decide⟩
   unfold authPart
   split
-  · have e : U ++ ':' :: P ++ ['@'] ++ (hostPart H ++ portPart port) =
-        U ++ ':' :: (P ++ '@' :: (hostPart H ++ portPart port)) := by simp
+  · have e : U ++ ':' :: P ++ ['@'] ++ (hostPartB b H ++ portPart port) =
+        U ++ ':' :: (P ++ '@' :: (hostPartB b H ++ portPart port)) := by simp
     rw [e]
     exact (upperEsc_append_sep sc _ _).2 ⟨hU, (upperEsc_append_sep sa _ _).2 ⟨hP, hX⟩⟩
   · split
-    · have e : U ++ ['@'] ++ (hostPart H ++ portPart port) =
-          U ++ '@' :: (hostPart H ++ portPart port) := by simp
+    · have e : U ++ ['@'] ++ (hostPartB b H ++ portPart port) =
+          U ++ '@' :: (hostPartB b H ++ portPart port) := by simp
       rw [e]
       exact (upperEsc_append_sep sa _ _).2 ⟨hU, hX⟩
     · simpa using hX
@@ -702,7 +657,7 @@ theorem upperEsc_printed_body (hup : UpFacts p) (hpath : PathIdem)
   have hPa : (0x25 : UInt8) ∈ Gen.Quote.unsafeForPath := by decide
   -- pieces
   have hnl : UpperEsc (canonParts puny false sf p).netloc := by
-    rw [canonParts_netloc, unsplitNetloc_eq, canonComps_user, canonComps_pass]
+    rw [canonParts_netloc_eq, canonComps_user, canonComps_pass]
     exact upperEsc_netloc (upperEsc_canonOpt _ hU hup.user).1 (upperEsc_canonOpt _ hU hup.pass).1
       (host_no_pct hpc sf h hpct)
   have hpa : UpperEsc (canonParts puny false sf p).path := by
@@ -720,8 +675,7 @@ theorem upperEsc_printed_body (hup : UpFacts p) (hpath : PathIdem)
       subst hu; exact hup.fragment
     · simp at hu
   have hT := upperEsc_tail hq hf
-  have hshape := finishPath_shape false p.path
-    (!p.query.isEmpty || truthy (if sf then none else some p.fragment)) h.split.path_abs
+  have hshape := finishPath_shape false p.path (hasMore puny sf p) h.split.path_abs
   have hpT : UpperEsc ((canonParts puny false sf p).path ++
       (queryPart (canonParts puny false sf p).query ++
         fragPart ((canonParts puny false sf p).fragment.getD []))) :=
@@ -729,8 +683,7 @@ theorem upperEsc_printed_body (hup : UpFacts p) (hpath : PathIdem)
   apply upperEsc_append_of_sepHead hnl hpT
   -- the path + tail is empty or starts with a delimiter
   have hpe : (canonParts puny false sf p).path =
-      finishPath false (canonPath p.path
-        (!p.query.isEmpty || truthy (if sf then none else some p.fragment))) := by
+      finishPath false (canonPath p.path (hasMore puny sf p)) := by
     rw [canonParts_path]; exact canonComps_path_eq hpc false sf h
   rcases hshape.1 with h0 | ⟨r, hr⟩
   · rw [hpe, h0, List.nil_append]; exact tail_sepHead _ _
@@ -779,76 +732,198 @@ theorem pathIdem : PathIdem where
     exact (upperEsc_join (sep := '/') ⟨by decide, by decide⟩ (splitOn (unquotePath p) '/')).1
       (by rw [join_splitOn]; exact hup) x hx'
 
-section
-variable {puny : Str → Str} (hpc : PunyClean puny) (sf : Bool) {S rest : Str} {p : Parsed}
-  (h : FromParse S rest p)
-include hpc h
+/-! ## no white-space character comes out of the safe unquoters -/
 
-/-- **the cleaning pass is the identity on the printed result** (unquoted mode): no control
-character, no surrounding white space (hypothesis `hlast` on the last character), escapes
-already upper-case, a protocol `PROTOCOL_RE` recognises -/
-theorem cleanUrl_printed_id (hup : UpFacts p) (hpath : PathIdem)
-    (hS : (∀ c ∈ S, isAsciiAlpha c = true) ∧ S.length ≤ 64)
-    (hpct : ∀ h0, p.hostname = some h0 → '%' ∉ h0)
-    (hwf : WF (canonParts puny false sf p).scheme (canonParts puny false sf p).netloc
-      (canonParts puny false sf p).path (canonParts puny false sf p).query
-      ((canonParts puny false sf p).fragment.getD []))
-    (hnl : (canonParts puny false sf p).netloc ≠ [] ∨
-      inTable usesNetloc20 (canonParts puny false sf p).scheme = true)
-    (hlast : ∀ c, (urlunsplit (canonParts puny false sf p)).getLast? = some c → isSpace c = false)
-    (dp : Str) :
-    Canonicalize.cleanUrl (urlunsplit (canonParts puny false sf p)) dp =
-      urlunsplit (canonParts puny false sf p) := by
-  have heq := printed_eq hpc sf h hwf hnl
-  have hlow : ∀ c ∈ lower S, isAsciiAlpha c = true := by
-    intro c hc
-    simp only [Py.lower, List.mem_map] at hc
-    obtain ⟨d, hd, rfl⟩ := hc
-    exact isAsciiAlpha_lowerChar (hS.1 d hd)
-  have hsne : lower S ≠ [] := by
-    obtain ⟨⟨c, r, e, _⟩, _⟩ := h.shaped; rw [e]; simp [Py.lower]
-  -- no control character
-  have hctl : NoCtl (urlunsplit (canonParts puny false sf p)) := by
-    rw [heq]
-    apply NoCtl.append h.shaped.noCtl.lower
-    intro c hc
-    simp only [List.mem_cons, List.mem_append] at hc
-    rcases hc with rfl | rfl | rfl | hc | hc | hc | hc
-    · decide
-    · decide
-    · decide
-    · exact noCtl_netloc_new hpc false sf h c hc
-    · exact noCtl_path hpc false sf h c (by rw [← canonParts_path]; exact hc)
-    · rcases mem_queryPart hc with h1 | rfl
-      · exact noCtl_query hpc false sf h c h1
-      · decide
-    · rcases mem_fragPart hc with h1 | rfl
-      · exact noCtl_fragment hpc false sf h c h1
-      · decide
-  -- no surrounding white space
-  have hhead : ∀ c, (urlunsplit (canonParts puny false sf p)).head? = some c → isSpace c = false := by
-    intro c hc
-    rw [heq] at hc
-    cases hl : lower S with
-    | nil => exact absurd hl hsne
-    | cons d r =>
-      rw [hl] at hc
-      simp only [List.cons_append, List.head?_cons, Option.some.injEq] at hc
-      subst hc
-      exact alpha_not_space (hlow d (by rw [hl]; simp))
-  -- escapes are upper-case
-  have hup' : UpperEsc (urlunsplit (canonParts puny false sf p)) := by
-    rw [heq]
-    have ss : Sep '/' := ⟨by decide, by decide⟩
-    exact (upperEsc_append_sep ⟨by decide, by decide⟩ _ _).2
-      ⟨upperEsc_of_no_pct (alpha_no_pct hlow),
-        (upperEsc_cons_sep ss _).2 ((upperEsc_cons_sep ss _).2
-          (upperEsc_printed_body hpc sf h hup hpath hpct))⟩
-  unfold Canonicalize.cleanUrl
-  rw [stripControl_id hctl, strip_id _ hhead hlast, upperQuoted_of_upperEsc hup', heq]
-  exact ensureProtocol_id (lower S) _ dp hsne hlow (by rw [lower_length]; exact hS.2)
+theorem isSpace_iff (c : Char) : isSpace c = true ↔ c.toNat ∈ spaceCodes := by
+  simp [isSpace]
 
-end
+/-- a character that is no control character, no space and not one `NON_PRINTABLE_RE`
+escapes is not white space for `str.strip` -/
+theorem not_isSpace_of {c : Char} (hctl : isControlChar c = false) (hs : staysEscaped c = false)
+    (h20 : c ≠ ' ') : isSpace c = false := by
+  cases hsp : isSpace c with
+  | false => rfl
+  | true =>
+    exfalso
+    have hn : c.toNat ≠ 32 := by
+      intro e; apply h20
+      apply Char.ext; apply UInt32.toNat_inj.1; exact e
+    have hc : ¬ (c.toNat ≤ 31 ∨ (127 ≤ c.toNat ∧ c.toNat ≤ 159)) := by
+      rw [← isControlChar_iff, hctl]; simp
+    simp only [staysEscaped, Bool.or_eq_false_iff, uSpaces, List.contains_cons, List.contains_nil,
+      Bool.or_false, beq_eq_false_iff_ne, ne_eq] at hs
+    simp only [isSpace, spaceCodes, List.contains_cons, List.contains_nil, Bool.or_false,
+      Bool.or_eq_true, beq_iff_eq] at hsp
+    omega
+
+/-- no raw white-space character -/
+def SpaceFree (t : Tok) : Prop := ∀ c, t = .raw c → isSpace c = false
+
+theorem spaceFree_esc (h1 h2 : Char) : SpaceFree (.esc h1 h2) := fun c hc => by cases hc
+
+theorem spaceFree_flush (bs : List UInt8) (hb : ∀ b ∈ bs, 0x80 ≤ b.toNat) :
+    ∀ t ∈ flush bs, SpaceFree t := by
+  intro t ht
+  simp only [flush, List.mem_flatMap] at ht
+  obtain ⟨x, hx, ht⟩ := ht
+  have hs := segment_high bs hb x hx
+  cases x with
+  | inl c =>
+    simp only at ht
+    split at ht
+    · simp only [List.mem_map] at ht
+      obtain ⟨b, _, rfl⟩ := ht
+      exact spaceFree_esc _ _
+    · rename_i hc1
+      simp only [List.mem_singleton] at ht
+      subst ht
+      intro c' hc'
+      cases hc'
+      have h80 : 0x80 ≤ c.toNat := hs
+      have hse : staysEscaped c = false := by simpa using hc1
+      have hctl : isControlChar c = false := by
+        cases hcc : isControlChar c with
+        | false => rfl
+        | true =>
+          rw [isControlChar_iff] at hcc
+          simp only [staysEscaped, Bool.or_eq_false_iff, isC1, Bool.and_eq_false_iff,
+            decide_eq_false_iff_not, Nat.not_le] at hse
+          omega
+      exact not_isSpace_of hctl hse (by rintro rfl; revert h80; decide)
+  | inr b =>
+    simp only [List.mem_singleton] at ht
+    subst ht
+    exact spaceFree_esc _ _
+
+def ItemSF : Item → Prop
+  | .lit t => SpaceFree t
+  | .byte b => 0x80 ≤ b.toNat
+
+theorem spaceFree_assemble (its : List Item) (acc : List UInt8)
+    (hits : ∀ it ∈ its, ItemSF it) (hacc : ∀ b ∈ acc, 0x80 ≤ b.toNat) :
+    ∀ t ∈ assemble its acc, SpaceFree t := by
+  induction its generalizing acc with
+  | nil => simpa [assemble] using spaceFree_flush acc hacc
+  | cons it its ih =>
+    have hrest : ∀ it' ∈ its, ItemSF it' := fun it' h => hits it' (by simp [h])
+    cases it with
+    | lit t0 =>
+      intro t ht
+      simp only [assemble, List.mem_append, List.mem_cons] at ht
+      rcases ht with ht | rfl | ht
+      · exact spaceFree_flush acc hacc t ht
+      · exact hits (.lit t) (by simp)
+      · exact ih [] hrest (by simp) t ht
+    | byte b =>
+      simp only [assemble]
+      apply ih _ hrest
+      intro b' hb'
+      simp only [List.mem_append, List.mem_singleton] at hb'
+      rcases hb' with hb' | rfl
+      · exact hacc b' hb'
+      · exact hits (.byte b') (by simp)
+
+theorem itemSF_itemOf (U : List UInt8) (t : Tok)
+    (ht : ∀ c, t = .raw c → isControlChar c = false ∧ staysEscaped c = false) :
+    ItemSF (itemOf U t) := by
+  cases t with
+  | raw c =>
+    simp only [itemOf]
+    split
+    · exact spaceFree_esc _ _
+    · rename_i h20
+      intro c' hc'
+      cases hc'
+      exact not_isSpace_of (ht c rfl).1 (ht c rfl).2 h20
+  | stray => exact spaceFree_esc _ _
+  | esc h1 h2 =>
+    simp only [itemOf]
+    split
+    · exact spaceFree_esc _ _
+    · rename_i hk
+      split
+      · rename_i hlt
+        have hlt' : (byteOf h1 h2).toNat < 0x80 := by
+          have := UInt8.lt_iff_toNat_lt.1 hlt; simpa using this
+        split
+        · exact spaceFree_esc _ _
+        · rename_i h20
+          intro c' hc'
+          cases hc'
+          simp only [keepEsc, Bool.or_eq_true, decide_eq_true_eq, beq_iff_eq, not_or] at hk
+          have k1 : ¬ (byteOf h1 h2).toNat < 0x20 :=
+            fun hh => hk.1.1 (UInt8.lt_iff_toNat_lt.2 (by simpa using hh))
+          have k2 : (byteOf h1 h2).toNat ≠ 0x7f :=
+            fun hh => hk.1.2 (UInt8.toNat_inj.1 (by simpa using hh))
+          have k3 : (byteOf h1 h2).toNat ≠ 0x20 :=
+            fun hh => h20 (UInt8.toNat_inj.1 (by simpa using hh))
+          have hn := toNat_ofNat_of_lt (n := (byteOf h1 h2).toNat) (by omega)
+          cases hsp : isSpace (Char.ofNat (byteOf h1 h2).toNat) with
+          | false => rfl
+          | true =>
+            exfalso
+            simp only [isSpace, spaceCodes, List.contains_cons, List.contains_nil, Bool.or_false,
+              Bool.or_eq_true, beq_iff_eq, hn] at hsp
+            omega
+      · rename_i hge
+        have : ¬ (byteOf h1 h2).toNat < 0x80 := by
+          intro h; exact hge (UInt8.lt_iff_toNat_lt.2 (by simpa using h))
+        show 0x80 ≤ (byteOf h1 h2).toNat
+        omega
+
+/-- **no white-space character comes out of a safe unquoter** (raw ones are escaped, `%20`
+and the escaped white space beyond ASCII stay escaped, control characters are not there) -/
+theorem noSpace_safelyUnquote (U : List UInt8) {s : Str} (hs : NoCtl s) :
+    ∀ c ∈ safelyUnquote U s, isSpace c = false := by
+  intro c hc
+  simp only [safelyUnquote, render, List.mem_flatMap] at hc
+  obtain ⟨t, ht, hct⟩ := hc
+  have hsf : SpaceFree t := by
+    unfold unquoteToks at ht
+    apply spaceFree_assemble _ [] _ (by simp) t ht
+    intro it hit
+    simp only [List.mem_map] at hit
+    obtain ⟨t0, ht0, rfl⟩ := hit
+    apply itemSF_itemOf
+    intro c0 hc0
+    subst hc0
+    obtain ⟨hin, hse⟩ := raw_mem_escapeRaw ht0
+    refine ⟨hs c0 ?_, hse⟩
+    rw [← render_tokens s]
+    simp only [render, List.mem_flatMap]
+    exact ⟨_, hin, by simp [renderTok]⟩
+  cases t with
+  | raw c0 =>
+    simp only [renderTok, List.mem_singleton] at hct
+    subst hct
+    exact hsf c rfl
+  | esc h1 h2 =>
+    have hw := wf_escapeRaw (wf_tokens s)
+    have hout := outTok_unquoteToks U (escapeRaw (tokens s)) hw _ ht
+    simp only [renderTok, List.mem_cons, List.not_mem_nil, or_false] at hct
+    cases hout with
+    | esc _ _ a b =>
+      rcases hct with rfl | rfl | rfl
+      · decide
+      · have := CanonRoundTrip.isHexDigit_toNat a
+        cases hsp : isSpace c with
+        | false => rfl
+        | true =>
+          exfalso
+          simp only [isSpace, spaceCodes, List.contains_cons, List.contains_nil, Bool.or_false,
+            Bool.or_eq_true, beq_iff_eq] at hsp
+          omega
+      · have := CanonRoundTrip.isHexDigit_toNat b
+        cases hsp : isSpace c with
+        | false => rfl
+        | true =>
+          exfalso
+          simp only [isSpace, spaceCodes, List.contains_cons, List.contains_nil, Bool.or_false,
+            Bool.or_eq_true, beq_iff_eq] at hsp
+          omega
+  | stray =>
+    simp only [renderTok, List.mem_singleton] at hct
+    subst hct; decide
 
 /-! ## the component rules are idempotent on what the parser reads back -/
 
@@ -878,17 +953,6 @@ theorem unq_strOf_canonOpt (U : List UInt8) (hU : (0x25 : UInt8) ∈ U) (hA : As
 
 theorem canonHost_nil (puny : Str → Str) : canonHost puny [] = [] := by
   simp [canonHost, decodePunycodeHostname, splitOn_nil, join, Py.lower]
-
-/-- the host rule on the (falsy = empty) host component -/
-def hostRule (puny : Str → Str) (o : Option Str) : Option Str :=
-  match o with
-  | some h => if h.isEmpty then some h else some (canonHost puny h)
-  | none => none
-
-theorem canonComps_host (puny : Str → Str) (quoted sf : Bool) (p : Parsed) :
-    (canonComps puny quoted sf p).host = hostRule puny p.hostname := by
-  simp only [canonComps, hostRule]
-  cases p.hostname <;> rfl
 
 theorem strOf_hostRule (puny : Str → Str) (o : Option Str) :
     strOf (hostRule puny o) = canonHost puny (strOf o) := by
@@ -954,18 +1018,331 @@ theorem unqF_eq_nil {y : Str} (h : unquoteFragment y = []) : y = [] := by
   show pctStr (unquoteFragment y) = []
   rw [h]; rfl
 
+/-! ## the last character of the printed result is no white space -/
+
+theorem getLast?_append_of_ne_nil {a b : Str} (hb : b ≠ []) : (a ++ b).getLast? = b.getLast? := by
+  rw [List.getLast?_append]
+  cases hl : b.getLast? with
+  | none => exact absurd (List.getLast?_eq_none_iff.1 hl) hb
+  | some c => rfl
+
+theorem last_of_noSpace {s : Str} (h : ∀ c ∈ s, isSpace c = false) :
+    ∀ c, s.getLast? = some c → isSpace c = false :=
+  fun c hc => h c (List.mem_of_getLast? hc)
+
+/-- the path rule only yields the empty path when nothing has to follow -/
+theorem canonPath_eq_nil {path : Str} {m : Bool} (h : canonPath path m = []) : m = false := by
+  unfold canonPath at h
+  simp only at h
+  split at h
+  · cases m with
+    | false => rfl
+    | true => simp at h
+  · rename_i hne
+    simp only [not_or] at hne
+    split at h
+    · simp at h
+    · exact absurd (by simpa using h) hne.1
+
+theorem endsWithSpace_false {s : Str} (h : endsWithSpace s = false) :
+    ∀ c, s.getLast? = some c → isSpace c = false := by
+  intro c hc
+  unfold endsWithSpace at h
+  rw [hc] at h
+  exact h
+
+theorem getD_eq_strOf (o : Option Str) : o.getD [] = strOf o := by
+  cases o with
+  | none => simp [strOf_none]
+  | some x => simp [strOf_some]
+
+theorem canonComps_port (puny : Str → Str) (quoted sf : Bool) (p : Parsed) :
+    (canonComps puny quoted sf p).port = portRule p.scheme p.port := by
+  simp only [canonComps, portRule]
+
+theorem canonComps_host (puny : Str → Str) (quoted sf : Bool) (p : Parsed) :
+    (canonComps puny quoted sf p).host = hostRule puny p.hostname := by
+  simp only [canonComps, hostRule]
+
+theorem hostEndsUrl_eq (puny : Str → Str) (quoted sf : Bool) (p : Parsed) :
+    hostEndsUrl puny p = ((canonComps puny quoted sf p).port.isNone &&
+      endsWithSpace (if bflag puny quoted sf p = true then
+        '[' :: strOf (canonComps puny quoted sf p).host ++ [']']
+        else strOf (canonComps puny quoted sf p).host)) := by
+  unfold hostEndsUrl
+  rw [getD_eq_strOf, strOf_bracketHost, canonComps_port, ← canonComps_host puny quoted sf p]
+  rfl
+
+section
+variable {puny : Str → Str} (hpc : PunyClean puny) (sf : Bool) {S rest : Str} {p : Parsed}
+  (h : FromParse S rest p)
+include hpc h
+
+theorem noCtl_canonPath (m : Bool) : NoCtl (canonPath p.path m) := by
+  intro c hc
+  rcases mem_canonPath hc with h1 | rfl
+  · exact noCtl_safelyUnquote _ (noCtl_of_sub hpc h h.split.sub_path) c h1
+  · decide
+
+/-- no white-space character in the printed path, query and fragment (unquoted mode) -/
+theorem noSpace_tail :
+    ∀ c ∈ (canonParts puny false sf p).path ++
+        (queryPart (canonParts puny false sf p).query ++
+          fragPart ((canonParts puny false sf p).fragment.getD [])), isSpace c = false := by
+  intro c hc
+  simp only [List.mem_append] at hc
+  rcases hc with hc | hc | hc
+  · rw [canonParts_path, canonComps_path_eq hpc false sf h] at hc
+    simp only [finishPath, Bool.false_eq_true, if_false] at hc
+    exact noSpace_safelyUnquote _ (noCtl_canonPath hpc h _) c hc
+  · rcases mem_queryPart hc with h1 | rfl
+    · rw [canonParts_query] at h1
+      rcases mem_canonQuery h1 with rfl | rfl | ⟨y, hy, hcy⟩
+      · decide
+      · decide
+      · simp only [requote, Bool.false_eq_true, if_false] at hcy
+        exact noSpace_safelyUnquote _
+          (noCtl_of_sub hpc h (fun x hx => h.split.sub_query (hy hx))) c hcy
+    · decide
+  · rcases mem_fragPart hc with h1 | rfl
+    · rw [canonParts_fragment] at h1
+      cases sf with
+      | true => simp [canonOpt] at h1
+      | false =>
+        simp only [Bool.false_eq_true, if_false] at h1
+        have e : (canonOpt false unquoteFragment (some p.fragment)).getD [] = unquoteFragment p.fragment :=
+          getD_canonOpt_some _ _
+        rw [e] at h1
+        exact noSpace_safelyUnquote _ (noCtl_of_sub hpc h h.split.sub_fragment) c h1
+    · decide
+
+/-- **the printed result does not end with a white-space character** (unquoted mode): the
+path, query and fragment hold none, the port is digits, a bracketed host ends with `]`, and
+a bare host ending with white space is followed by a slash (FX-C02-16f182c) -/
+theorem printed_last (hui : userinfoBrackets p.netloc = false)
+    (hbr : bracketedHost p.netloc = true →
+      bracketedHostOk (strOf (canonComps puny false sf p).host) = true) :
+    ∀ c, (printSplit (canonParts puny false sf p)).getLast? = some c → isSpace c = false := by
+  intro c hc
+  rw [printed_eq hpc false sf h] at hc
+  have hT := noSpace_tail hpc sf h
+  have hf := hostFacts hpc false sf h hui hbr
+  by_cases hT0 : (canonParts puny false sf p).path ++
+      (queryPart (canonParts puny false sf p).query ++
+        fragPart ((canonParts puny false sf p).fragment.getD [])) = []
+  · rw [hT0, List.append_nil] at hc
+    -- nothing after the netloc: the path rule saw that nothing has to follow
+    have hp0 : (canonParts puny false sf p).path = [] := (List.append_eq_nil_iff.1 hT0).1
+    have hmore : hasMore puny sf p = false := by
+      rw [canonParts_path, canonComps_path_eq hpc false sf h] at hp0
+      simp only [finishPath, Bool.false_eq_true, if_false] at hp0
+      exact canonPath_eq_nil (unquotePath_eq_nil hp0)
+    have hends : hostEndsUrl puny p = false := by
+      unfold hasMore at hmore
+      rw [Bool.or_eq_false_iff] at hmore
+      exact hmore.2
+    rw [hostEndsUrl_eq puny false sf p] at hends
+    by_cases hn0 : (canonParts puny false sf p).netloc = []
+    · rw [hn0] at hc
+      have e : lower S ++ [':', '/', '/'] = (lower S ++ [':', '/']) ++ ['/'] := by simp
+      rw [e, List.getLast?_concat] at hc
+      cases hc; decide
+    · have e : lower S ++ ':' :: '/' :: '/' :: (canonParts puny false sf p).netloc =
+          (lower S ++ [':', '/', '/']) ++ (canonParts puny false sf p).netloc := by simp
+      rw [e, getLast?_append_of_ne_nil hn0, canonParts_netloc_eq] at hc
+      rw [canonParts_netloc_eq] at hn0
+      cases hport : (canonComps puny false sf p).port with
+      | some n =>
+        rw [hport] at hc
+        have hpn : portPart (some n) ≠ [] := by simp [portPart]
+        rw [← List.append_assoc, getLast?_append_of_ne_nil hpn] at hc
+        rcases mem_portPart (List.mem_of_getLast? hc) with rfl | hd
+        · decide
+        · cases hsp : isSpace c with
+          | false => rfl
+          | true =>
+            exfalso
+            simp only [isAsciiDigit, decide_eq_true_eq, char_le_iff] at hd
+            have e5 : '0'.toNat = 48 := rfl
+            have e6 : '9'.toNat = 57 := rfl
+            rw [e5, e6] at hd
+            simp only [isSpace, spaceCodes, List.contains_cons, List.contains_nil, Bool.or_false,
+              Bool.or_eq_true, beq_iff_eq] at hsp
+            omega
+      | none =>
+        rw [hport] at hc hn0 hends
+        simp only [portPart, List.append_nil, Option.isNone_none, Bool.true_and] at hc hn0 hends
+        cases hb : bflag puny false sf p with
+        | true =>
+          rw [hb] at hc
+          simp only [hostPartB, if_true] at hc
+          have e2 : authPart (strOf (canonComps puny false sf p).user) (strOf (canonComps puny false sf p).pass) ++
+              ('[' :: strOf (canonComps puny false sf p).host ++ [']']) =
+              (authPart (strOf (canonComps puny false sf p).user) (strOf (canonComps puny false sf p).pass) ++
+                '[' :: strOf (canonComps puny false sf p).host) ++ [']'] := by simp
+          rw [e2, List.getLast?_concat] at hc
+          cases hc; decide
+        | false =>
+          rw [hb] at hc hn0 hends
+          have hp : hostPartB false (strOf (canonComps puny false sf p).host) =
+              strOf (canonComps puny false sf p).host := by
+            simp only [hostPartB, Bool.false_eq_true, if_false]
+            unfold hostPart; simp [(hf.bare hb).2]
+          rw [hp] at hc hn0
+          simp only [Bool.false_eq_true, if_false] at hends
+          by_cases hH : strOf (canonComps puny false sf p).host = []
+          · rw [hH, List.append_nil] at hc hn0
+            -- the userinfo ends with `@`
+            unfold authPart at hc hn0
+            split at hc
+            · rw [List.getLast?_concat] at hc; cases hc; decide
+            · split at hc
+              · rw [List.getLast?_concat] at hc; cases hc; decide
+              · rename_i h1 h2; simp [h1, h2] at hn0
+          · rw [getLast?_append_of_ne_nil hH] at hc
+            exact endsWithSpace_false hends c hc
+  · have e : lower S ++ ':' :: '/' :: '/' :: ((canonParts puny false sf p).netloc ++
+        ((canonParts puny false sf p).path ++
+          (queryPart (canonParts puny false sf p).query ++
+            fragPart ((canonParts puny false sf p).fragment.getD [])))) =
+        (lower S ++ ':' :: '/' :: '/' :: (canonParts puny false sf p).netloc) ++
+        ((canonParts puny false sf p).path ++
+          (queryPart (canonParts puny false sf p).query ++
+            fragPart ((canonParts puny false sf p).fragment.getD []))) := by simp
+    rw [e, getLast?_append_of_ne_nil hT0] at hc
+    exact hT c (List.mem_of_getLast? hc)
+
+/-- **the cleaning pass is the identity on the printed result** (unquoted mode): no control
+character, no surrounding white space (`printed_last`), escapes already upper-case, a
+protocol `PROTOCOL_RE` recognises (`scheme://` is always printed, FX-C02-f918741) -/
+theorem cleanUrl_printed_id (hup : UpFacts p) (hpath : PathIdem)
+    (hS : (∀ c ∈ S, isAsciiAlpha c = true) ∧ S.length ≤ 64)
+    (hpct : ∀ h0, p.hostname = some h0 → '%' ∉ h0)
+    (hui : userinfoBrackets p.netloc = false)
+    (hbr : bracketedHost p.netloc = true →
+      bracketedHostOk (strOf (canonComps puny false sf p).host) = true)
+    (dp : Str) :
+    Canonicalize.cleanUrl (printSplit (canonParts puny false sf p)) dp =
+      printSplit (canonParts puny false sf p) := by
+  have heq := printed_eq hpc false sf h
+  have hlast := printed_last hpc sf h hui hbr
+  have hlow : ∀ c ∈ lower S, isAsciiAlpha c = true := by
+    intro c hc
+    simp only [Py.lower, List.mem_map] at hc
+    obtain ⟨d, hd, rfl⟩ := hc
+    exact isAsciiAlpha_lowerChar (hS.1 d hd)
+  have hsne : lower S ≠ [] := by
+    obtain ⟨⟨c, r, e, _⟩, _⟩ := h.shaped; rw [e]; simp [Py.lower]
+  -- no control character
+  have hctl : NoCtl (printSplit (canonParts puny false sf p)) := by
+    rw [heq]
+    apply NoCtl.append h.shaped.noCtl.lower
+    intro c hc
+    simp only [List.mem_cons, List.mem_append] at hc
+    rcases hc with rfl | rfl | rfl | hc | hc | hc | hc
+    · decide
+    · decide
+    · decide
+    · exact noCtl_netloc_new hpc false sf h c hc
+    · exact noCtl_path hpc false sf h c (by rw [← canonParts_path]; exact hc)
+    · rcases mem_queryPart hc with h1 | rfl
+      · exact noCtl_query hpc false sf h c h1
+      · decide
+    · rcases mem_fragPart hc with h1 | rfl
+      · exact noCtl_fragment hpc false sf h c h1
+      · decide
+  -- no surrounding white space
+  have hhead : ∀ c, (printSplit (canonParts puny false sf p)).head? = some c → isSpace c = false := by
+    intro c hc
+    rw [heq] at hc
+    cases hl : lower S with
+    | nil => exact absurd hl hsne
+    | cons d r =>
+      rw [hl] at hc
+      simp only [List.cons_append, List.head?_cons, Option.some.injEq] at hc
+      subst hc
+      exact alpha_not_space (hlow d (by rw [hl]; simp))
+  -- escapes are upper-case
+  have hup' : UpperEsc (printSplit (canonParts puny false sf p)) := by
+    rw [heq]
+    have ss : Sep '/' := ⟨by decide, by decide⟩
+    exact (upperEsc_append_sep ⟨by decide, by decide⟩ _ _).2
+      ⟨upperEsc_of_no_pct (alpha_no_pct hlow),
+        (upperEsc_cons_sep ss _).2 ((upperEsc_cons_sep ss _).2
+          (upperEsc_printed_body hpc sf h hup hpath hpct))⟩
+  unfold Canonicalize.cleanUrl
+  rw [stripControl_id hctl, strip_id _ hhead hlast, upperQuoted_of_upperEsc hup', heq]
+  exact ensureProtocol_id (lower S) _ dp hsne hlow (by rw [lower_length]; exact hS.2)
+
+end
+
+/-! ## the second pass on the components -/
+
+theorem printSplit_congr {s t : Split} (hs : s.scheme = t.scheme) (hn : s.netloc = t.netloc)
+    (hu : urlunsplit s = urlunsplit t) : printSplit s = printSplit t := by
+  unfold printSplit
+  simp only [hs, hn, hu]
+
+section
+variable {puny : Str → Str} (hpl : PunyLaws puny) (hpc : PunyClean puny) (sf : Bool)
+  {S rest : Str} {p : Parsed} (h : FromParse S rest p)
+  (hui : userinfoBrackets p.netloc = false)
+  (hbr : bracketedHost p.netloc = true →
+    bracketedHostOk (strOf (canonComps puny false sf p).host) = true)
+include hpl hpc h hui hbr
+
+/-- the canonical host of the second pass is that of the first -/
+theorem host_reparsed :
+    strOf (canonComps puny false sf (reparsedOf puny false sf p)).host =
+      strOf (canonComps puny false sf p).host := by
+  rw [canonComps_host, canonComps_host]
+  show strOf (hostRule puny (if strOf (canonComps puny false sf p).host = [] then none
+    else some (strOf (canonComps puny false sf p).host))) = _
+  rw [canonComps_host]
+  by_cases h0 : strOf (hostRule puny p.hostname) = []
+  · rw [if_pos h0, h0]; simp [hostRule, strOf_none]
+  · rw [if_neg h0, strOf_hostRule puny (some _), strOf_some, strOf_hostRule,
+      canonHost_idem puny hpl]
+
+theorem port_reparsed :
+    (canonComps puny false sf (reparsedOf puny false sf p)).port =
+      (canonComps puny false sf p).port := by
+  simp only [canonComps, reparsedOf, reparsed]
+  cases p.port with
+  | none => rfl
+  | some n =>
+    by_cases hd : defaultPort p.scheme = some n
+    · simp [hd]
+    · simp [hd]
+
+/-- the host is printed between brackets by the second pass iff it was by the first -/
+theorem bflag_reparsed :
+    bflag puny false sf (reparsedOf puny false sf p) = bflag puny false sf p := by
+  have hb := bracketedHost_printed hpc false sf h hui hbr
+  unfold bflag
+  rw [host_reparsed hpl hpc sf h hui hbr]
+  show (decide (strOf (canonComps puny false sf p).host ≠ []) &&
+    bracketedHost (canonParts puny false sf p).netloc) = _
+  rw [hb]
+  unfold bflag
+  cases decide (strOf (canonComps puny false sf p).host ≠ []) <;> simp
+
 /-- the "has more" flag of the second pass is that of the first -/
-theorem hasMore_reparsed (puny : Str → Str) (sf : Bool) (p : Parsed) :
-    (!(canonQuery false p.query).isEmpty ||
-        truthy (if sf then none else some ((canonOpt false unquoteFragment
-          (if sf then none else some p.fragment)).getD []))) =
-      (!p.query.isEmpty || truthy (if sf then none else some p.fragment)) := by
-  rw [canonQuery_isEmpty]
+theorem hasMore_reparsed :
+    hasMore puny sf (reparsedOf puny false sf p) = hasMore puny sf p := by
+  unfold hasMore
+  have hq : (reparsedOf puny false sf p).query = canonQuery false p.query := rfl
+  have hfr : (reparsedOf puny false sf p).fragment =
+      (canonOpt false unquoteFragment (if sf then none else some p.fragment)).getD [] := rfl
+  rw [hq, canonQuery_isEmpty, hostEndsUrl_eq puny false sf (reparsedOf puny false sf p),
+    hostEndsUrl_eq puny false sf p, bflag_reparsed hpl hpc sf h hui hbr,
+    host_reparsed hpl hpc sf h hui hbr, port_reparsed hpl hpc sf h hui hbr]
+  congr 2
   cases sf with
   | true => rfl
   | false =>
-    simp only [Bool.false_eq_true, if_false]
-    congr 1
+    simp only [Bool.false_eq_true, if_false] at hfr ⊢
+    rw [hfr]
     have e : (canonOpt false unquoteFragment (some p.fragment)).getD [] = unquoteFragment p.fragment :=
       getD_canonOpt_some _ _
     rw [e]
@@ -977,26 +1354,22 @@ theorem hasMore_reparsed (puny : Str → Str) (sf : Bool) (p : Parsed) :
       | nil => exact absurd (unqF_eq_nil hu) (by simp)
       | cons a b => rfl
 
-section
-variable {puny : Str → Str} (hpl : PunyLaws puny) (sf : Bool) (p : Parsed)
-include hpl
-
 /-- **second pass on the components**: applying the component rules (unquoted mode) to what
 the parser reads back from the printed result prints the same URL again — userinfo items and
-fragment by `safelyUnquote_idem`, host by `canonHost_idem`, port (already stripped of the
-default), path by `PathIdem`, query by `canonQuery_idempotent` -/
-theorem canonParts_reparsed (hpath : PathIdem) (habs : AbsPath p.path) :
-    urlunsplit (canonParts puny false sf (reparsed (canonComps puny false sf p))) =
-      urlunsplit (canonParts puny false sf p) := by
+fragment by `safelyUnquote_idem`, host by `canonHost_idem` (brackets kept as they were), port
+(already stripped of the default), path by `PathIdem`, query by `canonQuery_idempotent` -/
+theorem canonParts_reparsed (hpath : PathIdem) :
+    printSplit (canonParts puny false sf (reparsedOf puny false sf p)) =
+      printSplit (canonParts puny false sf p) := by
+  have habs : AbsPath p.path := h.split.path_abs
   have hU : (0x25 : UInt8) ∈ Gen.Quote.unsafeForAuthItem := by decide
   have hF : (0x25 : UInt8) ∈ Gen.Quote.unsafeForFragment := by decide
-  rw [urlunsplit_eq_urlunsplit20, urlunsplit_eq_urlunsplit20]
   -- netloc
-  have hnet : (canonParts puny false sf (reparsed (canonComps puny false sf p))).netloc =
+  have hnet : (canonParts puny false sf (reparsedOf puny false sf p)).netloc =
       (canonParts puny false sf p).netloc := by
-    rw [canonParts_netloc, canonParts_netloc, unsplitNetloc_eq, unsplitNetloc_eq,
-      canonComps_user, canonComps_pass, canonComps_host, canonComps_user, canonComps_pass,
-      canonComps_host]
+    rw [canonParts_netloc_eq, canonParts_netloc_eq, bflag_reparsed hpl hpc sf h hui hbr,
+      host_reparsed hpl hpc sf h hui hbr, port_reparsed hpl hpc sf h hui hbr,
+      canonComps_user, canonComps_pass, canonComps_user, canonComps_pass]
     have keyU : ∀ (cu cp : Option Str), cu = canonOpt false unquoteAuthItem p.username →
         strOf (canonOpt false unquoteAuthItem
           (if strOf cp ≠ [] ∨ strOf cu ≠ [] then some (strOf cu) else none)) = strOf cu := by
@@ -1026,67 +1399,42 @@ theorem canonParts_reparsed (hpath : PathIdem) (habs : AbsPath p.path) :
         simp only [Classical.not_not] at hc
         rw [hc]; simp [canonOpt, strOf_none]
     have hu : strOf (canonOpt false unquoteAuthItem
-          (reparsed (canonComps puny false sf p)).username) =
+          (reparsedOf puny false sf p).username) =
         strOf (canonOpt false unquoteAuthItem p.username) := by
-      simp only [reparsed]
+      simp only [reparsedOf, reparsed]
       rw [keyU _ _ (canonComps_user puny false sf p), canonComps_user]
     have hp : strOf (canonOpt false unquoteAuthItem
-          (reparsed (canonComps puny false sf p)).password) =
+          (reparsedOf puny false sf p).password) =
         strOf (canonOpt false unquoteAuthItem p.password) := by
-      simp only [reparsed]
+      simp only [reparsedOf, reparsed]
       rw [keyP _ (canonComps_pass puny false sf p), canonComps_pass]
-    have keyH : ∀ (ch : Option Str), ch = hostRule puny p.hostname →
-        strOf (hostRule puny (if strOf ch = [] then none else some (strOf ch))) = strOf ch := by
-      intro ch e
-      subst e
-      by_cases h0 : strOf (hostRule puny p.hostname) = []
-      · rw [if_pos h0, h0]; simp [hostRule, strOf_none]
-      · rw [if_neg h0, strOf_hostRule puny (some _), strOf_some, strOf_hostRule,
-          canonHost_idem puny hpl]
-    have hh : strOf (hostRule puny (reparsed (canonComps puny false sf p)).hostname) =
-        strOf (hostRule puny p.hostname) := by
-      simp only [reparsed]
-      rw [keyH _ (canonComps_host puny false sf p), canonComps_host]
-    have hport : (canonComps puny false sf (reparsed (canonComps puny false sf p))).port =
-        (canonComps puny false sf p).port := by
-      simp only [canonComps, reparsed]
-      cases p.port with
-      | none => rfl
-      | some n =>
-        by_cases hd : defaultPort p.scheme = some n
-        · simp [hd]
-        · simp [hd]
-    rw [hu, hp, hh, hport]
+    rw [hu, hp]
   -- path
-  have hpa : (canonParts puny false sf (reparsed (canonComps puny false sf p))).path =
+  have hpa : (canonParts puny false sf (reparsedOf puny false sf p)).path =
       (canonParts puny false sf p).path := by
     have e1 : ∀ (pp : Parsed), (canonParts puny false sf pp).path =
-        unquotePath (canonPath pp.path
-          (!pp.query.isEmpty || truthy (if sf then none else some pp.fragment))) := by
+        unquotePath (canonPath pp.path (hasMore puny sf pp)) := by
       intro pp; simp [canonParts, canonComps]
     rw [e1, e1]
-    have e2 : (reparsed (canonComps puny false sf p)).path = (canonParts puny false sf p).path := rfl
-    have e3 : (reparsed (canonComps puny false sf p)).query = canonQuery false p.query := rfl
-    have e4 : (reparsed (canonComps puny false sf p)).fragment =
-        (canonOpt false unquoteFragment (if sf then none else some p.fragment)).getD [] := rfl
-    rw [e2, e3, e4, hasMore_reparsed puny sf p, e1, hpath.unq _ _ habs, hpath.idem _ _ _ habs,
+    have e2 : (reparsedOf puny false sf p).path = (canonParts puny false sf p).path := rfl
+    rw [e2, hasMore_reparsed hpl hpc sf h hui hbr, e1, hpath.unq _ _ habs, hpath.idem _ _ _ habs,
       hpath.unq _ _ habs]
   -- query
-  have hq : (canonParts puny false sf (reparsed (canonComps puny false sf p))).query =
+  have hq : (canonParts puny false sf (reparsedOf puny false sf p)).query =
       (canonParts puny false sf p).query := by
     rw [canonParts_query, canonParts_query]
-    have e3 : (reparsed (canonComps puny false sf p)).query = canonQuery false p.query := rfl
+    have e3 : (reparsedOf puny false sf p).query = canonQuery false p.query := rfl
     rw [e3]
     exact canonQuery_modes false false p.query (fun hh => by cases hh)
   -- fragment
-  have hf : (canonParts puny false sf (reparsed (canonComps puny false sf p))).fragment.getD [] =
+  have hf : (canonParts puny false sf (reparsedOf puny false sf p)).fragment.getD [] =
       (canonParts puny false sf p).fragment.getD [] := by
     rw [canonParts_fragment, canonParts_fragment]
     cases sf with
     | true => rfl
     | false =>
       simp only [Bool.false_eq_true, if_false]
-      have e4 : (reparsed (canonComps puny false false p)).fragment =
+      have e4 : (reparsedOf puny false false p).fragment =
           (canonOpt false unquoteFragment (some p.fragment)).getD [] := rfl
       rw [e4]
       have g1 := getD_canonOpt_some Gen.Quote.unsafeForFragment p.fragment
@@ -1095,9 +1443,10 @@ theorem canonParts_reparsed (hpath : PathIdem) (habs : AbsPath p.path) :
       rw [show unquoteFragment = safelyUnquote Gen.Quote.unsafeForFragment from rfl]
       rw [g1, g2]
       exact safelyUnquote_idem' _ hF asciiSet_fragment _
-  have hs : (canonParts puny false sf (reparsed (canonComps puny false sf p))).scheme =
+  have hs : (canonParts puny false sf (reparsedOf puny false sf p)).scheme =
       (canonParts puny false sf p).scheme := rfl
-  rw [hnet, hpa, hq, hf, hs]
+  apply printSplit_congr hs hnet
+  rw [urlunsplit_eq_urlunsplit20, urlunsplit_eq_urlunsplit20, hnet, hpa, hq, hf, hs]
 
 end
 
